@@ -226,6 +226,7 @@ def correspond(ctx, scale):
               ('vq-heads-sep-cosine', lambda: VectorQuantize(dim=4, codebook_size=5, heads=2, codebook_dim=2, separate_codebook_per_head=True, use_cosine_sim=True), 4, 5, 1, True),
               ('rvq', lambda: ResidualVQ(dim=3, num_quantizers=3, codebook_size=6), 3, 6, 1, False),
               ('grvq', lambda: GroupedResidualVQ(dim=4, groups=2, num_quantizers=2, codebook_size=5), 4, 5, 2, False)]
+    idx_shape_ref = {}
     for pname, mk, dim, K, extra_axes, has_lens in pad_mk:
         q = mk()
         b, n = 3, 6
@@ -234,6 +235,8 @@ def correspond(ctx, scale):
         for step in range(6):
             q.train(step % 2 == 0)
             lens_now = torch.tensor([_r.Random(1000 * step + i + len(pname)).randint(1, n) for i in range(b)])
+            if step >= 4:
+                lens_now = torch.zeros(b, dtype=torch.long)        # degenerate: the whole batch is padding (training step 4, evaluation step 5)
             lens_buf.copy_(lens_now)
             mask_buf.copy_(torch.arange(n)[None, :] < lens_now[:, None])
             use_lens = has_lens and step % 3 != 2
@@ -250,6 +253,13 @@ def correspond(ctx, scale):
             vm = valid if pname != 'grvq' else valid[None]
             vm = vm.reshape(*vm.shape, *([1] * (idx.ndim - vm.ndim))).expand_as(idx)
             info = f'{pname} step {step} ({"lens" if use_lens else "mask"} buffer refilled in place, lens={lens_now.tolist()})'
+            want_ishape = idx_shape_ref.get(pname)
+            if want_ishape is None:
+                with torch.no_grad():
+                    idx_shape_ref[pname] = want_ishape = tuple(mk()(x)[1].shape)
+            if tuple(idx.shape) != want_ishape:
+                failures.append({'key': f'{pname}:padded:index-shape', 'what': f'{info}: indices have shape {tuple(idx.shape)}, the documented shape (as without a mask) is {want_ishape}', 'case': dict(name=pname, step=step)})
+                continue
             if tuple(out.shape) != tuple(x.shape) or idx.dtype not in (torch.int32, torch.int64):
                 failures.append({'key': f'{pname}:padded:shape-dtype', 'what': f'{info}: output shape {tuple(out.shape)} / index dtype {idx.dtype}', 'case': dict(name=pname, step=step)})
                 continue
